@@ -292,6 +292,14 @@ class C13(C12):
             w = ctxlevel.extern_symbols(rnd3)
             if w:
                 bads.append(dict(what=w, input="ctxlevel.extern_symbols()", finding=None))
+        # the same patch inserted by one RewritingContext after another over one module
+        import random
+        for _ in range({"quick": 100, "thorough": 1000}["thorough" if boosted else tier]):
+            extra += 1
+            sd = rnd3.randrange(1 << 30)
+            w = ctxlevel.labels_across_contexts(random.Random(sd))
+            if w:
+                bads.append(dict(what=w, input=f"ctxlevel.labels_across_contexts(random.Random({sd}))", finding=None))
         bads = [b for b in bads if b["finding"] is None][:10] + [b for b in bads if b["finding"]][:2]
         return dict(evaluations=len(pairs) + extra, violations=bads, samples=[{"oracle": "symbol identity and uniqueness; chunked == whole; two copies with different suffixes"}])
 
